@@ -36,8 +36,14 @@ NEEDED = {"NPY_BYTE": "i1", "NPY_UBYTE": "u1", "NPY_SHORT": "i2", "NPY_USHORT": 
 W = "esutil/recfile/records.cpp"
 
 
+# rules that keep their verdict however the code is laid out (decided by term equality, effect analysis or dominance over
+# resolved calls); every other rule of this check is a template rule (vcheck.core.Check.obt)
+SEMANTIC = ('R04.1', 'R04.3', 'R04.3n', 'R04.4')
+
+
 def run(chk):
     repo = PyRepo()
+    chk.set_templates(repo, semantic=SEMANTIC)
     chk.explanation = MANIFEST["text"]
     chk.trusted = ["clang 14 AST", "C99 printf/scanf directive semantics", "LP64"]
     chk.assume("LP64: long and npy_int64 are 8 bytes")
